@@ -1,14 +1,18 @@
 """C16 — in-memory collections behave as their sequential reference models."""
 import json
+import os
+import re
 
 LEVEL = "model_checking"
 RULE = ("Six reference models (Window, LruCache, SafeMap, Queue, Ring, Set) are model-checked exhaustively for small "
         "constants; the implementation-shaped models WindowImpl (ring of buckets/offset/lastTime), SafeMapImpl (two "
-        "generations, thresholds 3/2 and 4/3), QueueImpl (circular buffer with growth) and RingImpl are checked to "
+        "generations, thresholds 3/2 and 4/3), QueueImpl (circular buffer with growth), RingImpl and SetImpl (map "
+        "of typed values + the managed set's recorded type) are checked to "
         "refine them. TLC prints one operation history per distinct reachable (implementation) state -- in the "
         "thorough tier per distinct transition -- and each is replayed on the real go-zero object; seeded random "
         "histories are added (window advances on/before/after bucket edges and of size-1/size/size+1 buckets, LRU "
-        "with driver-ticked expiry, queue growth/wrap phases, ring sizes 1..150, six Set element types) plus SafeMap "
+        "with driver-ticked expiry, queue growth/wrap phases, ring sizes 1..150, managed and unmanaged Sets holding "
+        "one to six element types) plus SafeMap "
         "histories of >40 000 operations built to cross both real migrations. Every recorded call result is "
         "validated by TLC against the reference model. distinct = distinct operation histories executed.")
 
@@ -24,6 +28,18 @@ def _tag(beh, obj):
     return beh
 
 
+def _set_universe(beh, cfg):
+    """Set histories: tell the driver the universe (Types x Vals) of the generating configuration, so that it
+    asks Contains about every element of it when observing."""
+    txt = open(os.path.join(os.path.dirname(os.path.dirname(os.path.abspath(__file__))), "specs", FAM, cfg)).read()
+    types = re.findall(r'"(\w+)"', re.search(r"^\s*Types\s*=\s*\{([^}]*)\}", txt, re.M).group(1))
+    vals = [int(v) for v in re.findall(r"\d+", re.search(r"^\s*Vals\s*=\s*\{([^}]*)\}", txt, re.M).group(1))]
+    for b in beh:
+        b["types"] = types
+        b["vals"] = vals
+    return beh
+
+
 def check(run):
     thorough = run.tier == "thorough"
     W = 8 if thorough else 4
@@ -35,6 +51,8 @@ def check(run):
         "to wait for; expiry values are chosen so that 0.95e and 1.05e are not whole seconds",
         "the timing wheel itself is property C12",
         "single-threaded histories (the property is about sequential behaviour); concurrent use is not covered",
+        "Set elements are typed values (type tag, small number): int, int64, uint, uint64, string and int32 (a type "
+        "a managed Set does not know); what a managed Set writes to the log is not observed",
         "SafeMap migration counts in the evidence are read white-box and are informational only",
     ]
 
@@ -48,7 +66,11 @@ def check(run):
                     note="two-generation SafeMap refines the plain map; thresholds 3/2, 3 keys, 24 ops")
     run.model_check(FAM, "QueueImpl", "QueueImplMC.cfg", workers=W,
                     note="circular buffer with growth refines the FIFO; initial sizes 1..3, capacity <= 9, 14 ops")
-    # (RingImpl and Set are model-checked by their generation runs below)
+    run.model_check(FAM, "SetImpl", "SetImplMC.cfg", workers=W,
+                    note="set.go (map of typed values + recorded type tp) refines the mathematical set and its "
+                         "observers agree (Coherent): managed/unmanaged, 6 element types x 1 value, every mixture "
+                         "of types under every recorded type, variadic mixed adds, 9 ops")
+    # (RingImpl is model-checked by its generation run below)
     if thorough:
         run.model_check(FAM, "WindowImpl", "WindowImplMC2.cfg", workers=W,
                         note="sizes 1..4, interval 3, advances 1..16, 9 ops")
@@ -67,15 +89,36 @@ def check(run):
                         note="growth that forgets the wrapped part violates Refines")
         run.model_check(FAM, "RingImpl", "RingImplBug.cfg", workers=1, expect="violation",
                         note="index folded back to 0 violates Refines")
+        run.model_check(FAM, "SetImpl", "SetImplMC2.cfg", workers=W,
+                        note="4 element types x 2 values, 10 ops")
+        run.model_check(FAM, "SetImpl", "SetImplBug_denyctn.cfg", workers=1, expect="violation",
+                        note="Contains denying a stored value of another type than the recorded one violates Coherent")
+        run.model_check(FAM, "SetImpl", "SetImplBug_dropadd.cfg", workers=1, expect="violation",
+                        note="add dropping a value of another type than the recorded one violates Refines")
+        run.model_check(FAM, "SetImpl", "SetImplReach.cfg", workers=1, expect="violation",
+                        note="vacuity guard: a managed set holding two managed kinds other than the recorded one "
+                             "is reachable within the bounds")
 
     # ---- spec -> code: one history per distinct reachable state (thorough: per transition) ----
     beh = []
     beh += _tag(run.generate(FAM, "WindowImpl", "WindowImplGenT.cfg" if thorough else "WindowImplGen.cfg"), "window")
     beh += _tag(run.generate(FAM, "LruCacheMC", "LruCacheGenT.cfg" if thorough else "LruCacheGen.cfg"), "cache")
     beh += _tag(run.generate(FAM, "QueueImpl", "QueueImplGenT.cfg"), "queue")
-    # RingImplMC / SetMC are model checking and generation in one run
+    # RingImplMC is model checking and generation in one run
     beh += _tag(run.generate(FAM, "RingImpl", "RingImplMC.cfg"), "ring")
-    beh += _tag(run.generate(FAM, "SetMC", "SetMC4.cfg" if thorough else "SetMC3.cfg"), "set")
+    # Set (SetImpl state = recorded type tp + content, managed or unmanaged):
+    #   6 element types x 1 value: one history per distinct TRANSITION (every state, every state-changing add /
+    #   remove of every type under every recorded type; quick: one-argument adds, thorough: also variadic mixed adds)
+    #   3 element types x 2 values, variadic mixed adds: per distinct state (quick) / transition (thorough)
+    # obs: the driver observes (Count, Keys, the five typed Keys, Contains of every element of the universe) after
+    # every operation, or -- quick transition cover, where every prefix is another history's business -- after the
+    # last one only.
+    for cfg, obs in ((("SetImplGenT.cfg", "all"), ("SetImplGen2T.cfg", "all")) if thorough else
+                     (("SetImplGenQ.cfg", "last"), ("SetImplGen2.cfg", "all"))):
+        sb = _tag(_set_universe(run.generate(FAM, "SetImpl", cfg), cfg), "set")
+        for b in sb:
+            b["obs"] = obs
+        beh += sb
     for b in beh:
         run.distinct.add(json.dumps(b, sort_keys=True))
     run.evaluations += len(beh)
@@ -105,8 +148,9 @@ def check(run):
     run.evaluations += run.traces - n0
 
 
-LEVEL_TEXT = ("Exhaustive TLC model checking of six reference models and of four implementation-shaped models "
-              "(window ring, two-generation map, growing circular queue, ring index folding) refined to them, plus "
+LEVEL_TEXT = ("Exhaustive TLC model checking of six reference models and of five implementation-shaped models "
+              "(window ring, two-generation map, growing circular queue, ring index folding, typed-value map with "
+              "the managed set's recorded type) refined to them, plus "
               "conformance: every TLC-reachable state replayed on the real objects, random histories and >40 000-"
               "operation SafeMap histories across both real migrations validated by TLC against the reference models.")
 LEVEL_NOTE = ("Trusted: TLC/SANY, the Go toolchain, hook H1 (virtual clock), the harness emit order. Sequential "
